@@ -100,11 +100,20 @@ func TestRaceBodies(t *testing.T) {
 			src = &source{fillers: 2 + round%3, static: true, ver: 1}
 			ttl = time.Millisecond
 		}
-		pc, err := pcache.New(pcache.WithSource(src), pcache.WithRefreshInterval(time.Millisecond), pcache.WithTTL(ttl))
+		// every fourth round the cache is built without preload: its first
+		// refresh ever then runs while readers are already at work (the
+		// provider the readers look up gets in by a lookup miss first)
+		noPreload := round%4 == 2 && !expiry
+		pc, err := pcache.New(pcache.WithSource(src), pcache.WithRefreshInterval(time.Millisecond), pcache.WithTTL(ttl), pcache.WithPreload(!noPreload))
 		if err != nil {
 			t.Fatal(err)
 		}
 		ctx := context.Background()
+		if noPreload {
+			if pi, err := pc.Get(ctx, pP); err != nil || pi == nil {
+				t.Fatalf("lookup miss of a known provider: %v %v", pi, err)
+			}
+		}
 		if expiry {
 			if err := pc.Refresh(ctx); err != nil {
 				t.Fatal(err)
